@@ -434,11 +434,19 @@ def phases(check, prog, canon):
         LENS + '._compute_field_phase'])
     res = it.analyze(q)
     ph = [c for c in it.calls if c['name'].endswith('_compute_field_phase')]
-    ok = len(ph) == 1 and ph[0]['args'][-1] == ('idx', sym('positions'),
-                                                 ('tuple', (num(2), num(0))))
+    ok = len(ph) == 1 and ph[0]['args'][-1] in _kz_forms(sym('positions'))
     check.require(ok, 'V4-field-phase', 'Lens.raw_fields phase',
-                  'phase evaluated at the particle z of the positions',
+                  'phase evaluated at the k z row of the positions (each point\'s own '
+                  'height; whether one representative may stand for all is C07\'s D4)',
                   prog.loc(q, prog.func(q)))
+
+
+def _kz_forms(P):
+    """the k z row of a (3, N) positions array: per point, or one representative"""
+    row = intern(('idx', P, num(2)))
+    return {row, intern(('idx', P, ('tuple', (num(2), num(0))))),
+            intern(('idx', row, num(0))),
+            intern(('call', 'numpy.mean', (row,), ()))}
 
 
 def amplitude_matrix(check, prog):
@@ -562,8 +570,8 @@ def lens_wiring(check, prog):
                 '%s=%s' % (k, show(x)[:60]) for k, x in b2.items())
         if ok:
             b3 = bind(LENS + '._compute_field_phase', ph[0]['args'][1:], ph[0]['kwargs'])
-            ok = b3 == {'particle_kz': intern(('idx', P['positions'],
-                                               ('tuple', (num(2), num(0)))))}
+            ok = set(b3) == {'particle_kz'} and \
+                b3['particle_kz'] in _kz_forms(P['positions'])
             detail = '_compute_field_phase(%s)' % show(b3.get('particle_kz'))[:60]
     check.require(ok, 'V6-lens-wiring', 'Lens.raw_fields',
                   'polarisation angle = arctan2(p_y, p_x); the parallel / perpendicular '
